@@ -46,8 +46,9 @@ def check_pair_objs(old, new, expect_new, same, base):
     r = diffing.apply_diff(d, tgt)
   except Exception as e:  # pylint: disable=broad-except
     return [(feat('apply_diff-raises', observed=type(e).__name__), f'{type(e).__name__}: {str(e)[:200]}')]
-  got, _ = H.project(tgt)
-  if got != expect_new:
+  # (dict insertion order is no part of a configuration's value: compare modulo it)
+  got = H.project_sorted(tgt)[0]
+  if got != H.canon_sorted(expect_new):
     mism.append((feat('result-differs'), f'result {json.dumps(got)} expected {json.dumps(expect_new)}'))
   if r is not None and r is not tgt or id(tgt) != keep_id:
     mism.append((feat('not-in-place'), 'apply_diff did not mutate the structure in place'))
